@@ -245,8 +245,8 @@ func genSeq(proto string) func(t *rapid.T) Case {
 }
 
 var (
-	twsPart = pbt.Part[Case]{Name: "seq-transport-ws", Quick: 160000, Thorough: 2400000, Gen: genSeq(protoTWS), Check: checkCase}
-	gwsPart = pbt.Part[Case]{Name: "seq-graphql-ws", Quick: 110000, Thorough: 1600000, Gen: genSeq(protoGWS), Check: checkCase}
+	twsPart = pbt.Part[Case]{Name: "seq-transport-ws", Quick: 110000, Thorough: 1600000, Gen: genSeq(protoTWS), Check: checkCase}
+	gwsPart = pbt.Part[Case]{Name: "seq-graphql-ws", Quick: 75000, Thorough: 1100000, Gen: genSeq(protoGWS), Check: checkCase}
 )
 
 func short(s string, n int) string {
